@@ -83,7 +83,8 @@ Proof.
   - cbn [andb]. unfold st_getslice_msb0. cbn [mlen raw]. rewrite seq_slice_unit by lia. cbn [bind].
     assert (Hz : zlen (sub f o (o + l)) = l).
     { unfold sub. rewrite zlen_firstn, zlen_skipn. lia. }
-    rewrite Hz, Z.eqb_refl. eexists. split; [reflexivity|]. split; [reflexivity|exact I].
+    rewrite Hz, Z.eqb_refl. unfold st_len. cbn [mlen raw]. destruct (o >? zlen f) eqn:Eo; [lia|]. cbn [andb negb].
+    eexists. split; [reflexivity|]. split; [reflexivity|exact I].
 Qed.
 
 Theorem setfile_wf f l o s : setfile f l o = Ok s -> wf s.
@@ -97,7 +98,7 @@ Proof.
     + destruct (frombuffer f l); [|discriminate]. cbn [bind]. destruct (st_getslice_msb0 _ _ _); [|discriminate].
       intros [= <-]. exact I.
     + destruct l as [n|].
-      * destruct (st_getslice_msb0 _ _ _) as [b|]; [|discriminate]. cbn [bind]. destruct (zlen b =? n); [|discriminate].
+      * destruct (st_getslice_msb0 _ _ _) as [b|]; [|discriminate]. cbn [bind]. destruct ((zlen b =? n) && _); [|discriminate].
         intros [= <-]. exact I.
       * destruct (off >? _); [discriminate|]. destruct (st_getslice_msb0 _ _ _); [|discriminate]. intros [= <-]. exact I.
 Qed.
